@@ -178,9 +178,31 @@ theorem parseTpl_mono : Mono parseTpl := by
         · left; simp only [Except.error.injEq] at hs; rw [← hg.1, hs]
         · right; exact ⟨f', by simp only [parseTpl, hf1, hf2, hf', hg.1], hg.2 ▸ hr'⟩
 
-theorem parseOptTpl_mono : Mono parseOptTpl := by
+/-- `parseOptTpl` with the modulus `65536` abstracted.  The proofs about `parseOptTpl` are carried out on
+this copy and transferred by definitional unfolding: the kernel is very slow on proof terms in which
+the literal `65536` of `(n + 65536 - sc) % 65536` occurs. -/
+def parseOptTplM (M : Nat) (r : Rd) : Except Err Template × Rd :=
+  match r.rU16 with
+  | none => (.error .short, r)
+  | some (tid, r1) =>
+    match r1.rU16 with
+    | none => (.error .short, r1)
+    | some (n, r2) =>
+      match r2.rU16 with
+      | none => (.error .short, r2)
+      | some (sc, r3) =>
+        match readSpecs sc r3 [] with
+        | (.error e, r4) => (.error e, r4)
+        | (.ok scs, r4) =>
+          match readSpecs ((n + M - sc) % M) r4 [] with
+          | (.error e, r5) => (.error e, r5)
+          | (.ok fs, r5) => (.ok ⟨tid, n, sc, scs, fs⟩, r5)
+
+theorem parseOptTplM_eq (r : Rd) : parseOptTpl r = parseOptTplM 65536 r := rfl
+
+theorem parseOptTplM_mono (M : Nat) : Mono (parseOptTplM M) := by
   intro s t f h res t' hg
-  simp only [parseOptTpl] at hg
+  simp only [parseOptTplM] at hg
   split at hg
   · left; simp at hg; exact hg.1.symm
   · rename_i tid r1 h1
@@ -198,7 +220,7 @@ theorem parseOptTpl_mono : Mono parseOptTpl := by
           simp only [Prod.mk.injEq] at hg
           rcases readSpecs_mono _ [] s r3 f3 hr3 _ _ h4 with hs | ⟨f', hf', hr'⟩
           · left; simp only [Except.error.injEq] at hs; rw [← hg.1, hs]
-          · right; exact ⟨f', by simp only [parseOptTpl, hf1, hf2, hf3, hf', hg.1], hg.2 ▸ hr'⟩
+          · right; exact ⟨f', by simp only [parseOptTplM, hf1, hf2, hf3, hf', hg.1], hg.2 ▸ hr'⟩
         · rename_i sc r4 h4
           rcases readSpecs_mono _ [] s r3 f3 hr3 _ _ h4 with hs | ⟨f4, hf4, hr4⟩
           · simp at hs
@@ -207,12 +229,14 @@ theorem parseOptTpl_mono : Mono parseOptTpl := by
               simp only [Prod.mk.injEq] at hg
               rcases readSpecs_mono _ [] s r4 f4 hr4 _ _ h5 with hs | ⟨f', hf', hr'⟩
               · left; simp only [Except.error.injEq] at hs; rw [← hg.1, hs]
-              · right; exact ⟨f', by simp only [parseOptTpl, hf1, hf2, hf3, hf4, hf', hg.1], hg.2 ▸ hr'⟩
+              · right; exact ⟨f', by simp only [parseOptTplM, hf1, hf2, hf3, hf4, hf', hg.1], hg.2 ▸ hr'⟩
             · rename_i fs r5 h5
               simp only [Prod.mk.injEq] at hg
               rcases readSpecs_mono _ [] s r4 f4 hr4 _ _ h5 with hs | ⟨f', hf', hr'⟩
               · simp at hs
-              · right; exact ⟨f', by simp only [parseOptTpl, hf1, hf2, hf3, hf4, hf', hg.1], hg.2 ▸ hr'⟩
+              · right; exact ⟨f', by simp only [parseOptTplM, hf1, hf2, hf3, hf4, hf', hg.1], hg.2 ▸ hr'⟩
+
+theorem parseOptTpl_mono : Mono parseOptTpl := parseOptTplM_mono 65536
 
 /-- lock-step relation on decoder states: same cache, same records, reader extended by `s` -/
 def SRel (s : Bytes) (a b : St) : Prop := Ext s a.r b.r ∧ a.cache = b.cache ∧ a.recs = b.recs
